@@ -8,6 +8,7 @@ ClauseSplit(e) ==
    IF e.raised THEN "raised"
    ELSE IF \E k \in DOMAIN e.pieces : \E j \in DOMAIN e.pieces[k] : ~(e.pieces[k][j] \in 1..Len(e.m)) THEN "piece_holds_a_foreign_observation"
    ELSE AcceptSplit(e.m, e.pieces)
+\* e.pre = the content of the marker feature BEFORE the call (<<>> when it did not exist): the marker definition does not depend on it
 ClauseSeg(e) ==
    IF e.raised THEN "raised"
    ELSE IF Len(e.out) # Len(e.rows) THEN "marker_column_length"
